@@ -227,8 +227,8 @@ theorem take_takeWhile_gen (p : Nat → Bool) (w : List Nat) : w.take (w.takeWhi
   | nil => rfl
   | cons c w ih =>
     by_cases h : p c = true
-    · simp [List.takeWhile_cons, h, ih]
-    · simp [List.takeWhile_cons, h]
+    · simp [h, ih]
+    · simp [h]
 
 theorem mem_takeWhile {p : Nat → Bool} {w : List Nat} {c : Nat} (h : c ∈ w.takeWhile p) : p c = true := by
   induction w with
@@ -239,7 +239,7 @@ theorem mem_takeWhile {p : Nat → Bool} {w : List Nat} {c : Nat} (h : c ∈ w.t
       rcases List.mem_cons.mp h with rfl | h
       · exact hx
       · exact ih h
-    · simp [List.takeWhile_cons, hx] at h
+    · simp [hx] at h
 
 theorem nameCont_source {c : Nat} (h : Spec.isNameContinue c = true) : isSourceCharacter c = true := by
   apply ascii_source
